@@ -133,6 +133,33 @@ def check(chk, repo):
                 rep.fn("STATE-decorator", fi, f"@{d}", False,
                        f"{fi.qual} is wrapped by @{d}: a cache or wrapper keeps state between calls, so results depend "
                        "on the call history (stale entries survive a re-fit or a reused buffer)")
+    # (iv-b) the repository's own decorators are stateless: the wrapper closure captures the wrapped function only
+    n_clos = 0
+    dec_mod = repo.module("opfython.utils.decorator")
+    for name, fi in sorted(dec_mod.functions.items()):
+        inner = [x for x in fi.node.body if isinstance(x, (ast.FunctionDef, ast.AsyncFunctionDef))]
+        outer_locals = set()
+        for st in fi.node.body:
+            if st in inner:
+                continue
+            for x in ast.walk(st):
+                if isinstance(x, ast.Name) and isinstance(x.ctx, ast.Store):
+                    outer_locals.add(x.id)
+        for fn_in in inner:
+            n_clos += 1
+            own = {a.arg for a in fn_in.args.posonlyargs + fn_in.args.args + fn_in.args.kwonlyargs}
+            captured = sorted({x.id for x in ast.walk(fn_in) if isinstance(x, ast.Name) and x.id in outer_locals
+                               and x.id not in own})
+            scoped = [x for x in ast.walk(fn_in) if isinstance(x, (ast.Nonlocal, ast.Global))]
+            fattr = [x for x in ast.walk(fi.node) if isinstance(x, (ast.Assign, ast.AugAssign))
+                     for t in (x.targets if isinstance(x, ast.Assign) else [x.target])
+                     if isinstance(t, (ast.Attribute, ast.Subscript)) and isinstance(getattr(t, "value", None), ast.Name)
+                     and t.value.id in ({fn_in.name} | set(fi.params))]
+            ok = not captured and not scoped and not fattr
+            rep.fn("STATE-closure", fi, f"the wrapper returned by {name} captures only the wrapped function", ok,
+                   "" if ok else f"the wrapper keeps state between calls ({'captures ' + ', '.join(captured) if captured else 'nonlocal/global or function attribute'}): "
+                   "a result can depend on earlier calls (e.g. the same array object refilled in place)")
+    chk.note("decorator_closures_checked", n_clos)
     # (v) fit / predict do not change the model's configuration, and fit rebuilds its graph from its arguments
     from ..common import check_fresh_graph, competitions_of, model_walk
     from ..ir import Walker
